@@ -9,7 +9,7 @@ use elliptic_curve::hash2curve::ExpandMsg;
 use zkryptium::bbsplus::ciphersuites::{BbsCiphersuite, Bls12381Sha256, Bls12381Shake256};
 use zkryptium::keys::pair::KeyPair;
 use zkryptium::schemes::algorithms::BBSplus;
-use zkryptium::schemes::generics::Signature;
+use zkryptium::schemes::generics::{BlindSignature, Commitment, PoKSignature, Signature};
 
 /// parses "[[1, 2], [3]]"
 pub fn get_nested(a: &Args, k: &str) -> Vec<Vec<u8>> {
@@ -202,6 +202,139 @@ where
     }
 }
 
+fn proofflow<CS: BbsCiphersuite>(a: &Args) -> Result<Option<String>, String>
+where
+    CS::Expander: for<'x> ExpandMsg<'x>,
+{
+    let msgs = get_nested(a, "msgs");
+    let hdr = opt_bytes(a, "hdr");
+    let ph = opt_bytes(a, "ph");
+    let idx = get_usizes(a, "idx");
+    let edit = get_usize(a, "edit");
+    guarded(|| -> Option<String> {
+        let kp = KeyPair::<BBSplus<CS>>::generate(&[0x42u8; 40], None, None).unwrap();
+        let (sk, pk) = (kp.private_key().clone(), kp.public_key().clone());
+        let sig = Signature::<BBSplus<CS>>::sign(Some(&msgs), &sk, &pk, hdr.as_deref()).unwrap();
+        let p = match PoKSignature::<BBSplus<CS>>::proof_gen(&pk, &sig.to_bytes(), hdr.as_deref(), ph.as_deref(), Some(&msgs), Some(&idx)) {
+            Ok(p) => p,
+            Err(e) => return Some(format!("proof_gen failed: {}", e)),
+        };
+        let mut d = idx.clone();
+        d.sort();
+        d.dedup();
+        let u = msgs.len() - d.len();
+        let enc = p.to_bytes();
+        if enc.len() != 272 + 32 * u {
+            return Some(format!("proof length {} != 272 + 32 * {}", enc.len(), u));
+        }
+        let p2 = match PoKSignature::<BBSplus<CS>>::from_bytes(&enc) {
+            Ok(x) => x,
+            Err(_) => return Some("proof does not decode from its own octets".into()),
+        };
+        let dm: Vec<Vec<u8>> = d.iter().map(|i| msgs[*i].clone()).collect();
+        // honest verification (with the presentation of the index list the prover used and the sorted one)
+        for il in [&idx, &d] {
+            if p2.proof_verify(&pk, Some(&dm), Some(il), hdr.as_deref(), ph.as_deref()).is_err() {
+                return Some("honest proof rejected".into());
+            }
+        }
+        // edits must be rejected
+        if !dm.is_empty() {
+            let mut dm2 = dm.clone();
+            dm2[0].push(0x5a);
+            if p2.proof_verify(&pk, Some(&dm2), Some(&d), hdr.as_deref(), ph.as_deref()).is_ok() {
+                return Some("proof verifies with an altered disclosed message".into());
+            }
+            if let Some(k) = (0..msgs.len()).find(|k| !d.contains(k)) {
+                let mut d2 = d.clone();
+                d2[0] = k;
+                if p2.proof_verify(&pk, Some(&dm), Some(&d2), hdr.as_deref(), ph.as_deref()).is_ok() {
+                    return Some("proof verifies with a disclosed message claimed at another position".into());
+                }
+            }
+        }
+        let mut h2 = hdr.clone().unwrap_or_default();
+        h2.push(7);
+        if p2.proof_verify(&pk, Some(&dm), Some(&d), Some(&h2), ph.as_deref()).is_ok() {
+            return Some("proof verifies with another header".into());
+        }
+        let mut ph2 = ph.clone().unwrap_or_default();
+        ph2.push(7);
+        if p2.proof_verify(&pk, Some(&dm), Some(&d), hdr.as_deref(), Some(&ph2)).is_ok() {
+            return Some("proof verifies with another presentation header".into());
+        }
+        let _ = edit;
+        None
+    })
+}
+
+fn blindflow<CS: BbsCiphersuite>(a: &Args) -> Result<Option<String>, String>
+where
+    CS::Expander: for<'x> ExpandMsg<'x>,
+{
+    let msgs = get_nested(a, "msgs");
+    let cmsgs = get_nested(a, "cmsgs");
+    let hdr = opt_bytes(a, "hdr");
+    guarded(|| -> Option<String> {
+        let kp = KeyPair::<BBSplus<CS>>::generate(&[0x42u8; 40], None, None).unwrap();
+        let (sk, pk) = (kp.private_key().clone(), kp.public_key().clone());
+        let (c, blind) = match Commitment::<BBSplus<CS>>::commit(Some(&cmsgs)) {
+            Ok(x) => x,
+            Err(e) => return Some(format!("commit failed: {}", e)),
+        };
+        let cb = c.to_bytes();
+        if cb.len() != 112 + 32 * cmsgs.len() {
+            return Some("serialized commitment has the wrong length".into());
+        }
+        let s = match BlindSignature::<BBSplus<CS>>::blind_sign(&sk, &pk, Some(&cb), hdr.as_deref(), Some(&msgs)) {
+            Ok(s) => s,
+            Err(e) => return Some(format!("blind_sign refused an honest commitment: {}", e)),
+        };
+        if s.verify_blind_sign(&pk, hdr.as_deref(), Some(&msgs), Some(&cmsgs), Some(&blind)).is_err() {
+            return Some("honest blind signature rejected".into());
+        }
+        // tampered commitments must be refused: every single-bit flip of a few octets in every segment
+        let mut positions = vec![0usize, 47, 48 + 31, cb.len() - 1];
+        if cmsgs.len() > 0 {
+            positions.push(48 + 32 + 31);
+        }
+        for pos in positions {
+            for bit in 0..8 {
+                let mut t = cb.clone();
+                t[pos] ^= 1 << bit;
+                if BlindSignature::<BBSplus<CS>>::blind_sign(&sk, &pk, Some(&t), hdr.as_deref(), Some(&msgs)).is_ok() {
+                    return Some(format!("blind_sign accepted a commitment with bit {} of octet {} flipped", bit, pos));
+                }
+            }
+        }
+        // bound artefacts
+        if !cmsgs.is_empty() {
+            let mut c2 = cmsgs.clone();
+            c2[0].push(0x5a);
+            if s.verify_blind_sign(&pk, hdr.as_deref(), Some(&msgs), Some(&c2), Some(&blind)).is_ok() {
+                return Some("blind signature verifies with an altered committed message".into());
+            }
+        }
+        if !msgs.is_empty() {
+            let mut m2 = msgs.clone();
+            m2[0].push(0x5a);
+            if s.verify_blind_sign(&pk, hdr.as_deref(), Some(&m2), Some(&cmsgs), Some(&blind)).is_ok() {
+                return Some("blind signature verifies with an altered signer message".into());
+            }
+        }
+        let mut h2 = hdr.clone().unwrap_or_default();
+        h2.push(7);
+        if s.verify_blind_sign(&pk, Some(&h2), Some(&msgs), Some(&cmsgs), Some(&blind)).is_ok() {
+            return Some("blind signature verifies with another header".into());
+        }
+        let other = zkryptium::bbsplus::commitment::BlindFactor::random();
+        if s.verify_blind_sign(&pk, hdr.as_deref(), Some(&msgs), Some(&cmsgs), Some(&other)).is_ok() {
+            return Some("blind signature verifies with another blinding factor".into());
+        }
+        None
+    })
+}
+
 pub fn replay_flow(a: &Args) -> (bool, String, String) {
     let kind = get(a, "kind").to_string();
     let shk = get(a, "suite") == "shk";
@@ -209,6 +342,10 @@ pub fn replay_flow(a: &Args) -> (bool, String, String) {
         ("sigflow", false) => sigflow::<Bls12381Sha256>(a, &rf::SHA),
         ("sigflow", true) => sigflow::<Bls12381Shake256>(a, &rf::SHAKE),
         ("update", false) => update::<Bls12381Sha256>(a, &rf::SHA),
+        ("proofflow", false) => proofflow::<Bls12381Sha256>(a),
+        ("proofflow", true) => proofflow::<Bls12381Shake256>(a),
+        ("blindflow", false) => blindflow::<Bls12381Sha256>(a),
+        ("blindflow", true) => blindflow::<Bls12381Shake256>(a),
         (_, _) => update::<Bls12381Shake256>(a, &rf::SHAKE),
     };
     match r {
